@@ -89,13 +89,25 @@ class State:
 class Engine:
     def __init__(self, src_path, qualname, contract, specs=None, callees=None, prune=True):
         self.src = open(src_path).read(); self.tree = ast.parse(self.src)
-        self.qualname = qualname; self.fn = self._find(qualname)
+        self.qualname = qualname
+        if "::loop(" in qualname:
+            # a LOOP of a function that is otherwise outside the subset, extracted mechanically on every run: the `for` statement whose header is the quoted text, inside the named
+            # function, becomes the whole body of a synthetic function whose parameters are the loop's free variables named by the contract ("fragment_params"). Dropped: everything
+            # of the enclosing function before and after the loop; what the loop assumes about its free variables is stated as `requires` (assumptions about the surrounding glue).
+            fq, hdr = qualname.split("::loop(", 1); hdr = hdr.rsplit(")", 1)[0]; outer = self._find(fq)
+            tgt_txt = lambda t: ", ".join(ast.unparse(x) for x in t.elts) if isinstance(t, ast.Tuple) else ast.unparse(t)
+            loops_ = [n for n in ast.walk(outer) if isinstance(n, ast.For) and f"for {tgt_txt(n.target)} in {ast.unparse(n.iter)}" == hdr]
+            if len(loops_) != 1: raise Stale(f"{qualname}: {len(loops_)} loops with this header")
+            params = contract.get("fragment_params") or []
+            self.fn = ast.FunctionDef(name=outer.name + "__loop", args=ast.arguments(posonlyargs=[], args=[ast.arg(arg=p_) for p_ in params], kwonlyargs=[], kw_defaults=[], defaults=[]),
+                                      body=[loops_[0]], decorator_list=[], lineno=loops_[0].lineno, col_offset=loops_[0].col_offset, end_lineno=loops_[0].end_lineno, end_col_offset=loops_[0].end_col_offset)
+        else: self.fn = self._find(qualname)
         self.contract = contract; self.specs = dict(specs or {}); self.callees = callees or {}
         self.obls = []; self.fresh = itertools.count(); self.prune = prune
         loops = [n for n in ast.walk(self.fn) if isinstance(n, (ast.For, ast.While))]
         loops.sort(key=lambda n: (n.lineno, n.col_offset))
         self.loop_ord = {id(n): i for i, n in enumerate(loops)}
-        self.sha = hashlib.sha256(ast.get_source_segment(self.src, self.fn).encode()).hexdigest()[:16]
+        self.sha = hashlib.sha256((ast.get_source_segment(self.src, self.fn) or ast.unparse(self.fn)).encode()).hexdigest()[:16]
         self.in_spec = False; self.frozen = {}; self.ghost_names = set(); self.bmc = False; self.finals = []; self.scope_of = {}
         self.inst_name = ""; self.name_count = {}; self.defs = []
         # occurrence numbers of assignments, by target (a local name, or the base array of a subscript store), in source order: anchors of ghost code
@@ -457,6 +469,18 @@ class Engine:
                 return Val("arr", ref=base.ref, elem=base.elem, dtype=base.dtype, ndim=1, row=iz, vlen=n1)
             if isinstance(e.slice, ast.Slice): return self.slice_view(st, base, e.slice, e.lineno)
             i = self.ev(st, e.slice)
+            if i.kind == "arr" and i.elem == "int" and i.ndim == 1 and base.ndim == 1:
+                # NumPy integer-array indexing: a NEW array with out[l] = a[idx[l]] (negative positions wrap); every position must be in range
+                n = self.arr_len(st, base); ni = self.arr_len(st, i); l_ = z3.Int(f"l?{next(self.fresh)}")
+                rd = lambda l: self.arr_read(st, i, l, e.lineno, check=False)
+                if not self.in_spec: self.emit(st, "bounds", z3.ForAll([l_], z3.Implies(z3.And(l_ >= 0, l_ < ni), z3.And(rd(l_) >= -n, rd(l_) < n))), e.lineno, "[gather positions]")
+                t = self.fc("gather", z3.ArraySort(I, sort_of(base.elem)))
+                src = lambda l: self.arr_read(st, base, z3.If(rd(l) < 0, rd(l) + n, rd(l)), e.lineno, check=False)
+                if self.bmc and self.conc(ni) is not None:
+                    for c_ in range(self.conc(ni)): st.pc.append(z3.Select(t, c_) == src(z3.IntVal(c_)))
+                else: st.pc.append(z3.ForAll([l_], z3.Implies(z3.And(l_ >= 0, l_ < ni), z3.Select(t, l_) == src(l_)), patterns=[z3.Select(t, l_)]))
+                ref = st.heap.new(base.elem, base.dtype, (ni,), t, "gather")
+                return Val("arr", ref=ref, elem=base.elem, dtype=base.dtype)
             if i.kind != "int": raise Unsupported("non-int index")
             return Val(base.elem, self.arr_read(st, base, i.z, e.lineno))
         if base.kind == "chunks" and isinstance(e.slice, ast.Slice):
@@ -792,6 +816,10 @@ class Engine:
             if isinstance(sl, ast.Slice): raise Unsupported("slice store")
             if val.kind == "arr" and arr.ndim == 2 and arr.row is None and not isinstance(sl, ast.Tuple):
                 return self.store_row(st, arr, self.ev(st, sl).z, val, line)
+            if not isinstance(sl, ast.Tuple):
+                iv = self.ev(st, sl)
+                if iv.kind == "arr" and val.kind == "arr" and arr.ndim == 1 and arr.ref is not None and arr.off is None:
+                    return self.scatter_store(st, arr, iv, val, line)
             idxs = [self.ev(st, x).z for x in sl.elts] if isinstance(sl, ast.Tuple) else [self.ev(st, sl).z]
             self.store(st, arr, idxs, val, line)
         else: raise Unsupported("assign target")
@@ -810,6 +838,29 @@ class Engine:
                 if not ok: raise ElemTypeMismatch(f"{s.targets[0].id} is allocated as {d_} but holds elements of `{want}` ({pk})")
         for t in s.targets: self.assign(st, t, val, s.lineno)
         return [("normal", st, None)]
+
+    def scatter_store(self, st, arr, idx, val, line):
+        """NumPy `a[idx] = b` with an integer array idx: a[idx[l]] = b[l]; positions in range, equal lengths, and pairwise distinct positions (with a repeat the LAST writer wins in
+        NumPy - an order dependence no caller here intends - so distinctness is an obligation); every other slot keeps its value"""
+        elem, dtype, ghost, label = st.heap.meta[arr.ref]; na, ni, nb_ = self.arr_len(st, arr), self.arr_len(st, idx), self.arr_len(st, val)
+        if val.elem != elem: raise Unsupported(f"scatter of {val.elem} values into {elem} array {label}")
+        l1, l2 = z3.Int(f"l?{next(self.fresh)}"), z3.Int(f"l?{next(self.fresh)}"); rd = lambda l: self.arr_read(st, idx, l, line, check=False)
+        self.emit(st, "shape", ni == nb_, line, f"[{label}[positions] = array]")
+        self.emit(st, "bounds", z3.ForAll([l1], z3.Implies(z3.And(l1 >= 0, l1 < ni), z3.And(rd(l1) >= -na, rd(l1) < na))), line, f"[{label}[positions]]")
+        if label in self.contract.get("nonneg_index", ()): self.emit(st, "negindex", z3.ForAll([l1], z3.Implies(z3.And(l1 >= 0, l1 < ni), rd(l1) >= 0)), line, f"[{label}]")
+        self.emit(st, "distinct", z3.ForAll([l1, l2], z3.Implies(z3.And(l1 >= 0, l1 < l2, l2 < ni), rd(l1) != rd(l2))), line, f"[{label}[positions] = array]")
+        if arr.ref in self.frozen: self.emit(st, "frame", z3.BoolVal(False), line, f"[{self.frozen[arr.ref]}]")
+        wrap = lambda v: z3.If(v < 0, v + na, v); old = st.heap.arr[arr.ref]; new = self.fc(label, old.sort())
+        if self.bmc and self.conc(na) is not None and self.conc(ni) is not None:
+            for g_ in range(self.conc(na)):
+                cur = z3.Select(old, g_)
+                for l_ in range(self.conc(ni)): cur = z3.If(wrap(rd(z3.IntVal(l_))) == g_, self.arr_read(st, val, z3.IntVal(l_), line, check=False), cur)
+                st.pc.append(z3.Select(new, g_) == cur)
+        else:
+            g = z3.Int(f"g?{next(self.fresh)}")
+            st.pc.append(z3.ForAll([l1], z3.Implies(z3.And(l1 >= 0, l1 < ni), z3.Select(new, wrap(rd(l1))) == self.arr_read(st, val, l1, line, check=False)), patterns=[rd(l1)]))
+            st.pc.append(z3.ForAll([g], z3.Implies(z3.And(g >= 0, g < na, z3.ForAll([l2], z3.Implies(z3.And(l2 >= 0, l2 < ni), wrap(rd(l2)) != g))), z3.Select(new, g) == z3.Select(old, g)), patterns=[z3.Select(new, g)]))
+        st.heap.arr[arr.ref] = new
 
     def vec_inplace_add(self, st, s):
         """NumPy in-place vector updates of an int64 array, exactly as NumPy defines them:
